@@ -578,3 +578,25 @@ Example head_limits_instance :
   h1_head_ok (B "localhost:8443") (B "GET") (B "/s") [(B "x-001", repeat 118 (N.to_nat 16334))] = true /\
   h1_head_ok (B "localhost:8443") (B "GET") (B "/s") [(B "x-001", repeat 118 (N.to_nat 16335))] = false.
 Proof. vm_compute. repeat split. Qed.
+
+(** ---- HTTP/2: streams the client has reset ([handle_connection]'s accept loop) ---- *)
+(** For every batch of streams — answered by the host's limiter or by tasks of their own, reset by the client or not, in
+    any combination —: every stream the client did not reset receives its own answer and the connection is still served
+    (the repaired loop: a 429 that cannot be sent because its stream was reset concerns that stream only). *)
+Theorem reset_stream_is_its_own : forall qs : list h2req, h2_answered true qs = h2_reset_spec qs.
+Proof. exact reset_stream_is_its_own_lemma. Qed.
+
+(** The code before the repair: false.  A reset stream that the limiter answers ended the whole connection: the streams
+    whose handlers were still running, and those not yet accepted, were never answered (replayed on the real code:
+    known-findings.txt). *)
+Theorem reset_limited_stream_v0_refuted : exists qs : list h2req,
+  map hq_reset qs = [false; false; false; false; true; false] /\
+  h2_answered false qs = ([(7, 429)], false) /\
+  h2_answered true qs = ([(1, 200); (3, 200); (5, 200); (7, 429); (11, 429)], true) /\
+  h2_reset_spec qs = ([(1, 200); (3, 200); (5, 200); (7, 429); (11, 429)], true).
+Proof. exact reset_limited_stream_v0_refuted_lemma. Qed.
+
+Example reset_streams_instance :
+  run_rst (XL [XL []; XL []; XL [XN 1; XN 3]; XL [XL [XN 0; XN 200]; XL [XN 0; XN 404]; XL [XN 1; XN 200]; XL [XN 1; XN 200]]])
+  = XL [XL [XL [XN 1; XN 200]; XL [XN 5; XN 429]]; XN 1].
+Proof. vm_compute. reflexivity. Qed.
